@@ -13,6 +13,7 @@
     comma, a quote, a space or a word byte, which is all the matchers ask). *)
 From Coq Require Import List NArith Bool Arith.
 From Atlas Require Import Base.Bytes.
+From Atlas Require Diff.Schema.
 Import ListNotations.
 Local Open Scope N_scope.
 
@@ -180,7 +181,10 @@ Fixpoint fill_checks_go (fuel : nat) (s : bytes) : list (option bytes * bytes) :
 Definition fill_checks (s : bytes) : list (option bytes * bytes) := fill_checks_go (S (length s)) s.
 
 (** ** setGenExpr
-    regexp.Compile(<dq>(?:[(,]\s{0,})[<dq>`]*(NAME)[<dq>`]*[^,]*(?i:GENERATED\s+ALWAYS)*\s*(?i:AS){1}\s*\(<dq>)
+    regexp.Compile(<dq>(?:[(,]\s{0,})[<dq>`]*(NAME)[<dq>`]*\s[^,]*(?i:GENERATED\s+ALWAYS)*\s*(?i:AS){1}\s*\(<dq>)
+    (the \s after the name and its closing quotes is the fix "sqlite inspection looks for the
+    generated-column expression after the whole column name"; [match_gen_at_old] is the regexp before it,
+    which matched the name as a prefix of a longer one).
     Modelled for NAME in \w+ (otherwise the name is read as a regexp: [GenUnmodelled]).
     [^,]* is greedy: of the comma-free stretch after the name it keeps as much as
     possible, so the match ends at the LAST <dq>AS\s*(<dq> that starts in the stretch
@@ -209,6 +213,20 @@ Definition match_gen_at (name s : bytes) : option bytes :=
   | c :: r =>
       if open_ch c then
         match lit_cs name (skip_while is_quote (skip_while is_space r)) with
+        | Some r3 => match skip_while is_quote r3 with
+                     | c4 :: r4 => if is_space c4 then last_as r4 else None
+                     | [] => None
+                     end
+        | None => None
+        end
+      else None
+  | [] => None
+  end.
+Definition match_gen_at_old (name s : bytes) : option bytes :=
+  match s with
+  | c :: r =>
+      if open_ch c then
+        match lit_cs name (skip_while is_quote (skip_while is_space r)) with
         | Some r3 => last_as r3
         | None => None
         end
@@ -232,8 +250,28 @@ Definition set_gen_expr (name s : bytes) : gen_result :=
            end
        end.
 
+(** the same with the regexp before the fix (for the theorem about the old code) *)
+Fixpoint find_gen_old (name s : bytes) : option bytes :=
+  match match_gen_at_old name s with
+  | Some x => Some x
+  | None => match s with [] => None | _ :: s' => find_gen_old name s' end
+  end.
+Definition set_gen_expr_old (name s : bytes) : gen_result :=
+  if negb (forallb is_word name) || match name with [] => true | _ => false end then GenUnmodelled
+  else match find_gen_old name s with
+       | None => GenNotFound
+       | Some from_paren =>
+           match scan_expr from_paren with
+           | [] => GenEmpty
+           | e => GenOk e
+           end
+       end.
+
 (** ** reAutoinc =
-    (?i)(?:[(,]\s{0,})[<dq>`]?(\w+)[<dq>`]?\s+INTEGER\s+[^,]*PRIMARY\s+KEY\s+[^,]*AUTOINCREMENT *)
+    (?i)(?:[(,]\s{0,})[<dq>`]?(\w+)[<dq>`]?\s+INTEGER\s+[^,]*PRIMARY\s+KEY(?:\s+(?:ASC|DESC))?(?:\s+ON\s+CONFLICT\s+\w+)?\s+AUTOINCREMENT
+    (since the fix "sqlite inspection recognises AUTOINCREMENT only where the grammar allows it": between
+    PRIMARY KEY and AUTOINCREMENT there is only an optional ASC/DESC and an optional conflict clause; before it
+    the tail was PRIMARY\s+KEY\s+[^,]*AUTOINCREMENT and matched the letters later in the column definition) *)
 (** [[^,]*P]: the literal [p] (which has no comma) occurs, case-folded, at a
     position of [s] before which there is no comma *)
 Fixpoint has_ci (p s : bytes) : bool :=
@@ -244,21 +282,61 @@ Fixpoint has_ci (p s : bytes) : bool :=
             | c :: s' => if N.eqb c ch_comma then false else has_ci p s'
             end
   end.
-(** [PRIMARY\s+KEY\s+[^,]*AUTOINCREMENT] at the head of [s] *)
+(** [\s+AUTOINCREMENT] at the head *)
+Definition K_ASC : bytes := [65;83;67].
+Definition K_DESC : bytes := [68;69;83;67].
+Definition K_ON_ : bytes := [79;78].
+Definition K_CONFLICT : bytes := [67;79;78;70;76;73;67;84].
+Definition ends_autoinc (s : bytes) : bool :=
+  match plus_space s with
+  | Some r => match lit_ci K_AUTOINCREMENT r with Some _ => true | None => false end
+  | None => false
+  end.
+(** [\s+ON\s+CONFLICT\s+\w+] at the head: the rest after it *)
+Definition opt_conflict (s : bytes) : option bytes :=
+  match plus_space s with
+  | Some r1 =>
+    match lit_ci K_ON_ r1 with
+    | Some r2 =>
+      match plus_space r2 with
+      | Some r3 =>
+        match lit_ci K_CONFLICT r3 with
+        | Some r4 =>
+          match plus_space r4 with
+          | Some r5 => match word1 r5 with Some (_, r6) => Some r6 | None => None end
+          | None => None
+          end
+        | None => None
+        end
+      | None => None
+      end
+    | None => None
+    end
+  | None => None
+  end.
+(** [\s+(?:ASC|DESC)] at the head: the rest after it *)
+Definition opt_order (s : bytes) : option bytes :=
+  match plus_space s with
+  | Some r1 => match lit_ci K_ASC r1 with Some r2 => Some r2 | None => lit_ci K_DESC r1 end
+  | None => None
+  end.
+Definition tail_from (a : bytes) : bool :=
+  ends_autoinc a || match opt_conflict a with Some b => ends_autoinc b | None => false end.
+(** [PRIMARY\s+KEY(?:\s+(?:ASC|DESC))?(?:\s+ON\s+CONFLICT\s+\w+)?\s+AUTOINCREMENT] at the head of [s] *)
 Definition pk_autoinc_at (s : bytes) : bool :=
   match lit_ci K_PRIMARY s with
   | Some r1 =>
     match plus_space r1 with
     | Some r2 =>
       match lit_ci K_KEY r2 with
-      | Some (c :: r3) => is_space c && has_ci K_AUTOINCREMENT r3
-      | _ => false
+      | Some r3 => tail_from r3 || match opt_order r3 with Some a => tail_from a | None => false end
+      | None => false
       end
     | None => false
     end
   | None => false
   end.
-(** [[^,]*PRIMARY\s+KEY\s+[^,]*AUTOINCREMENT] *)
+(** [[^,]*PRIMARY\s+KEY...AUTOINCREMENT] *)
 Fixpoint has_pk_autoinc (s : bytes) : bool :=
   pk_autoinc_at s ||
   match s with
@@ -293,12 +371,76 @@ Fixpoint find_autoinc (s : bytes) : option bytes :=
   | Some x => Some x
   | None => match s with [] => None | _ :: s' => find_autoinc s' end
   end.
+(** ** reAutoinc before the fix (for the theorem about the old code) =
+    (?i)(?:[(,]\s{0,})[<dq>`]?(\w+)[<dq>`]?\s+INTEGER\s+[^,]*PRIMARY\s+KEY\s+[^,]*AUTOINCREMENT *)
+(** [PRIMARY\s+KEY\s+[^,]*AUTOINCREMENT] at the head of [s] *)
+Definition pk_autoinc_at_old (s : bytes) : bool :=
+  match lit_ci K_PRIMARY s with
+  | Some r1 =>
+    match plus_space r1 with
+    | Some r2 =>
+      match lit_ci K_KEY r2 with
+      | Some (c :: r3) => is_space c && has_ci K_AUTOINCREMENT r3
+      | _ => false
+      end
+    | None => false
+    end
+  | None => false
+  end.
+(** [[^,]*PRIMARY\s+KEY\s+[^,]*AUTOINCREMENT] *)
+Fixpoint has_pk_autoinc_old (s : bytes) : bool :=
+  pk_autoinc_at_old s ||
+  match s with
+  | [] => false
+  | c :: s' => if N.eqb c ch_comma then false else has_pk_autoinc_old s'
+  end.
+Definition match_autoinc_at_old (s : bytes) : option bytes :=
+  match s with
+  | c :: r =>
+      if open_ch c then
+        match word1 (opt_quote (skip_while is_space r)) with
+        | Some (w, r3) =>
+          match plus_space (opt_quote r3) with
+          | Some r5 =>
+            match lit_ci K_INTEGER r5 with
+            | Some r6 =>
+              match r6 with
+              | c6 :: r7 => if is_space c6 && has_pk_autoinc_old r7 then Some w else None
+              | [] => None
+              end
+            | None => None
+            end
+          | None => None
+          end
+        | None => None
+        end
+      else None
+  | [] => None
+  end.
+Fixpoint find_autoinc_old (s : bytes) : option bytes :=
+  match match_autoinc_at_old s with
+  | Some x => Some x
+  | None => match s with [] => None | _ :: s' => find_autoinc_old s' end
+  end.
 Inductive autoinc_result := AutoNone | AutoErrNoColumn | AutoErrUnexpectedPK | AutoOk (c : bytes).
 (** [autoinc(t)]: [cols] the column names, [pk] the names of the primary-key parts *)
 Definition autoinc (s : bytes) (cols pk : list bytes) : autoinc_result :=
   match pk with
   | [p] =>
       match find_autoinc s with
+      | None => AutoNone
+      | Some w =>
+          if existsb (bytes_eqb w) cols then
+            (if bytes_eqb w p then AutoOk w else AutoErrUnexpectedPK)
+          else AutoErrNoColumn
+      end
+  | _ => AutoNone
+  end.
+
+Definition autoinc_old (s : bytes) (cols pk : list bytes) : autoinc_result :=
+  match pk with
+  | [p] =>
+      match find_autoinc_old s with
       | None => AutoNone
       | Some w =>
           if existsb (bytes_eqb w) cols then
@@ -318,8 +460,35 @@ Definition is_go_space (c : N) : bool :=  (* strings.TrimSpace, ASCII part *)
   is_space c || N.eqb c 11.
 Definition trim_space (s : bytes) : bytes :=
   rev (skip_while is_go_space (rev (skip_while is_go_space s))).
-Definition index_predicate (stmt : bytes) : option bytes :=
+(** before the fix "sqlite inspection finds the predicate of a partial index after the closing
+    parenthesis of the index parts": strings.Index(stmt, <dq>WHERE<dq>) *)
+Definition index_predicate_old (stmt : bytes) : option bytes :=
   match index_of K_WHERE stmt with
+  | Some r => Some (trim_space r)
+  | None => None
+  end.
+(** since the fix: reIdxWhere = (?is)\)\s{0,}WHERE\s+(.+)$ , leftmost match, TrimSpace of the group.
+    [where_at]: a match starts here -- ")" , spaces, WHERE in any case, one white-space byte and at least one
+    more byte ("." matches newlines too); whatever way \s+ and .+ share the white space, TrimSpace of the
+    group is TrimSpace of everything after the keyword *)
+Definition where_at (s : bytes) : option bytes :=
+  match s with
+  | c :: r =>
+      if N.eqb c ch_rp then
+        match lit_ci K_WHERE (skip_while is_space r) with
+        | Some (c1 :: c2 :: r2) => if is_space c1 then Some (c1 :: c2 :: r2) else None
+        | _ => None
+        end
+      else None
+  | [] => None
+  end.
+Fixpoint find_where (s : bytes) : option bytes :=
+  match where_at s with
+  | Some x => Some x
+  | None => match s with [] => None | _ :: s' => find_where s' end
+  end.
+Definition index_predicate (stmt : bytes) : option bytes :=
+  match find_where stmt with
   | Some r => Some (trim_space r)
   | None => None
   end.
@@ -661,8 +830,10 @@ Definition recover (s : bytes) (cols hidden pk : list bytes) (partial_stmts : li
 Definition bt_ident (n : bytes) : bytes := ch_bt :: n ++ [ch_bt].
 Definition starts_lp (s : bytes) : bool := match s with c :: _ => N.eqb c ch_lp | [] => false end.
 Definition ends_rp (s : bytes) : bool := match rev s with c :: _ => N.eqb c ch_rp | [] => false end.
-(** check(): expressions not already wrapped are trimmed and wrapped *)
-Definition check_expr (e : bytes) : bytes :=
+(** check(): sqlx.MayWrap(strings.TrimSpace(expr)) (fix "sqlite planner wraps a CHECK expression like
+    (a) AND (b) in parentheses"; [check_expr_old] is the code before it: a test of the first and last byte) *)
+Definition check_expr (e : bytes) : bytes := Schema.may_wrap (trim_space e).
+Definition check_expr_old (e : bytes) : bytes :=
   let t := trim_space e in
   if starts_lp t && ends_rp t then e else ch_lp :: t ++ [ch_rp].
 Definition print_check (k : option bytes * bytes) : bytes :=
